@@ -77,7 +77,8 @@ def _restart(ctx, fs, pool, op, k):
         return _faulty_save(ctx, fs, pool, o, op, name, fault)
     via_s = op.get("via", "path")
     via_l = {"path": "path", "file": "file", "save_lmpdat": "load_lmpdat"}[via_s]
-    re, rem = restart.restart_lmpdat(ctx, fs, r, m, name, style=op.get("style", "full"), via_save=via_s, via_load=via_l, prefix="c09")
+    re, rem = restart.restart_lmpdat(ctx, fs, r, m, name, style=op.get("style", "full"), via_save=via_s, via_load=via_l, prefix="c09",
+                                      pathkind=op.get("pathkind", "std"), same_handle=op.get("same_handle", False))
     if re is None:
         return set()
     if op.get("keep"):
